@@ -76,6 +76,7 @@ PL_Regions == [A1 |-> SL!Str("A", "1"), A2 |-> SL!Pair(SL!IntN(1), SL!IntN(2)), 
                all |-> SL!All, plate |-> SL!All,
                list2 |-> SL!Lst(<<SL!Str("A", "1"), SL!Pair(SL!IntN(2), SL!IntN(2))>>),
                list2b |-> SL!Lst(<<SL!Pair(SL!Lbl("A"), SL!IntN(2)), SL!Str("B", "1")>>),
+               listR |-> SL!Lst(<<SL!Str("B", "1"), SL!Pair(SL!IntN(1), SL!IntN(2))>>),   \* a list that is NOT in row-major order: B1, A2
                list1 |-> SL!Lst(<<SL!Str("B", "2")>>),         \* a list of ONE well: shape <<1>>, not the single well B2 (shape <<1, 1>>)
                list1q |-> SL!Lst(<<SL!Pair(SL!IntN(1), SL!IntN(1))>>),
                \* narrowed selections: plate[:][1::2] (= row 2) and plate[:, 1:][0:2:2, 1:] (= well A,2)
@@ -94,6 +95,8 @@ PL_Forms == <<
   F4("p", "row1", "p", "B2"), F4("p", "row1", "p", "A1"), F4("p", "row1", "p", "row2"), F4("p", "row1", "p", "row1"),
   F4("p", "col1", "p", "col2"), F4("p", "row1", "p", "col1"), F4("p", "all", "p", "row1"),
   F4("p", "list2", "p", "list2b"), F4("p", "list2", "p", "row1"), F4("p", "col2", "p", "col1"),
+  \* a list in another order than the plate's: into it, out of it, element-wise with a list in plate order
+  F4("s", "-", "p", "listR"), F4("p", "listR", "t", "-"), F4("p", "listR", "q", "all"),
   \* one-element lists against several wells (no pairing form: rejected) and against one another (element-wise)
   F4("p", "list1", "p", "row1"), F4("p", "row1", "p", "list1"), F4("p", "list1", "q", "all"), F4("p", "list1", "q", "list1q"),
   \* cross plate
@@ -109,10 +112,10 @@ PL_Remove == <<RC("p", "plate", "W"), RC("p", "row1", "liquid"), RC("p", "col1",
                RC("p", "list2", "W"), RC("p", "all", "solid"), RC("p", "A2", "D"), RC("q", "plate", "liquid"),
                RC("p", "row2", "E"), RC("s", "-", "solid"), RC("p", "narrowB", "enzyme"), RC("p", "narrowA2", "liquid"),
                \* the same regions again with another selector (the replay hands the same slice object to both)
-               RC("p", "row1", "W"), RC("p", "col1", "solid"), RC("p", "B1", "W")>>
+               RC("p", "row1", "W"), RC("p", "col1", "solid"), RC("p", "B1", "W"), RC("p", "listR", "liquid")>>
 FC(n, r, solvent, u) == [n |-> n, r |-> r, solvent |-> solvent, u |-> u]
 PL_Fill == <<FC("p", "plate", "W", "L"), FC("p", "row1", "W", "L"), FC("p", "col2", "D", "g"), FC("p", "B2", "W", "mol"),
-             FC("p", "list2", "W", "L"), FC("p", "row2", "N", "g"), FC("q", "all", "W", "L"), FC("t", "-", "W", "L"), FC("p", "narrowB", "W", "L")>>
+             FC("p", "list2", "W", "L"), FC("p", "row2", "N", "g"), FC("q", "all", "W", "L"), FC("t", "-", "W", "L"), FC("p", "narrowB", "W", "L"), FC("p", "listR", "W", "L")>>
 PL_FillDeltas == {One, R(-1, 2)}
 
 (***************************************************************************)
